@@ -41,6 +41,7 @@ import (
 	"0chain.net/core/memorystore"
 	"0chain.net/core/viper"
 	"0chain.net/miner"
+	"0chain.net/smartcontract/minersc"
 	"0chain.net/smartcontract/storagesc"
 	"github.com/0chain/common/core/currency"
 	"github.com/0chain/common/core/statecache"
@@ -281,6 +282,7 @@ func Setup() {
 		}()
 		smartcontract.ContractMap[ScriptAddress] = theScript
 		smartcontract.ContractMap[storagesc.ADDRESS] = storagesc.NewStorageSmartContract()
+		smartcontract.ContractMap[minersc.ADDRESS] = minersc.NewMinerSmartContract()
 
 		np := node.NewPool(node.NodeTypeMiner)
 		if err := np.AddNode(selfNode); err != nil {
@@ -303,6 +305,9 @@ type Cfg struct {
 	FutureNonce    int   `json:"future_nonce"`
 	MaxByteSize    int64 `json:"max_byte_size"`
 	BatchSize      int   `json:"batch_size"`
+	FeeEnabled     bool     `json:"fee_enabled,omitempty"`
+	MinFee         uint64   `json:"min_fee,omitempty"`
+	Exempt         []string `json:"exempt,omitempty"` // ChainConfig.TxnExempt function names
 }
 
 type Acct struct {
@@ -350,16 +355,20 @@ func NewMiner(cfg Cfg, accts []Acct, rnd int64, now common.Timestamp) *Miner {
 	Setup()
 	c := chain.Provider().(*chain.Chain)
 	c.ID = datastore.ToKey(config.GetServerChainID())
+	exempt := map[string]bool{}
+	for _, n := range cfg.Exempt {
+		exempt[n] = true
+	}
 	data := &chain.ConfigData{
-		IsFeeEnabled: false, IsBlockRewardsEnabled: false,
+		IsFeeEnabled: cfg.FeeEnabled, MinTxnFee: currency.Coin(cfg.MinFee), IsBlockRewardsEnabled: false,
 		MinBlockSize: 1, BlockSize: 1000,
-		MaxBlockCost: cfg.MaxBlockCost, TxnTransferCost: cfg.TransferCost, TxnCostFeeCoeff: 1000000,
+		MaxBlockCost: cfg.MaxBlockCost, TxnTransferCost: cfg.TransferCost, TxnCostFeeCoeff: 10000000000, // estimated fee (in coin units) = cost
 		MaxByteSize: cfg.MaxByteSize, ValidationBatchSize: cfg.BatchSize,
 		TxnFutureNonce: cfg.FutureNonce, ClientSignatureScheme: "ed25519",
 		BlockProposalMaxWaitTime: 2 * time.Minute, SmartContractTimeout: time.Minute,
 		SmartContractSettingUpdatePeriod: cfg.SettingsPeriod,
 		MinGenerators:                    1, RoundRange: 10000000,
-		TxnExempt: map[string]bool{},
+		TxnExempt: exempt,
 	}
 	c.ChainConfig = chain.NewConfigImpl(data)
 	config.Configuration().ChainConfig = c.ChainConfig
@@ -384,6 +393,9 @@ func NewMiner(cfg Cfg, accts []Acct, rnd int64, now common.Timestamp) *Miner {
 		}
 	}
 	if err := storagesc.InitConfig(sctx); err != nil {
+		panic(err)
+	}
+	if err := minersc.InitConfig(sctx); err != nil { // cost table of the payFees built-in (fees enabled)
 		panic(err)
 	}
 	pb.ClientState = mpt
